@@ -5,6 +5,7 @@ package rockredis
 import (
 	"bytes"
 
+	"github.com/youzan/ZanRedisDB/common"
 	"vsym"
 )
 
@@ -360,5 +361,124 @@ func Verif_C12_BitmapKey() {
 	vsym.Assert(vsym.And(c12LE(start, ea), vsym.BytesLess(ea, stop)), "bitmap segment inside [start,stop)")
 	inRange := vsym.And(c12LE(start, eb), vsym.BytesLess(eb, stop))
 	vsym.Assert(vsym.Implies(inRange, c12SameTK(a, b)), "only segments of the same bitmap fall into its range")
+	vsym.Reach("end")
+}
+
+// ---- range operations touch exactly the addressed collection ----
+//
+// Whole-collection clears switch to engine range deletes when the *stored size* exceeds RangeDeleteNum
+// (5000). Whether that branch is taken depends on the stored size only, so it is exercised here on a
+// collection of one real element whose stored size was raised by RangeDeleteNum through the real size
+// helper (an abstraction of "5000 further elements somewhere inside the collection's range"): whatever the
+// clear deletes outside the addressed collection in this state it also deletes from a really large one.
+
+func c12Put(db *RockDB, typ int, key, member []byte, ts int64) {
+	var err error
+	switch typ {
+	case 0:
+		_, err = db.HSet(ts, false, key, member, []byte("v"))
+	case 1:
+		_, err = db.SAdd(ts, key, member)
+	case 2:
+		_, err = db.ZAdd(ts, key, common.ScorePair{Score: 1, Member: member})
+	default:
+		_, err = db.RPush(ts, key, member)
+	}
+	vsym.Assert(err == nil, "setup write")
+}
+
+func c12Count(db *RockDB, typ int, key []byte) int64 {
+	var n int64
+	var err error
+	switch typ {
+	case 0:
+		var all []common.KVRecordRet
+		_, all, err = db.HGetAll(key)
+		n = int64(len(all))
+	case 1:
+		var ms [][]byte
+		ms, err = db.SMembers(key)
+		n = int64(len(ms))
+	case 2:
+		var all []common.ScorePair
+		all, err = db.ZRange(key, 0, -1)
+		n = int64(len(all))
+		if err == nil {
+			// the member -> score index must survive as well
+			for _, sp := range all {
+				_, e2 := db.ZScore(key, sp.Member)
+				vsym.Assert(e2 == nil, "member of an untouched zset still has its score entry")
+			}
+		}
+	default:
+		var es [][]byte
+		es, err = db.LRange(key, 0, -1)
+		n = int64(len(es))
+	}
+	vsym.Assert(err == nil, "enumeration ok")
+	return n
+}
+
+func Verif_C12_ClearIsolation() {
+	policy := []common.ExpirationPolicy{common.WaitCompact, common.LocalDeletion}[vsym.Choose("policy", 2)]
+	v := vOpenDBPolicy(policy)
+	defer v.done()
+	db := v.db
+	typ := vsym.Choose("type", 4)
+	ts := int64(1700000000) * 1e9
+	key := []byte("t:k")
+	// neighbours in the same table: a longer key with the addressed key as prefix, keys sorting just before and
+	// after it, and the same key in a table whose name has the addressed table as prefix
+	b := vsym.U8("suffix")
+	vsym.Assume(b != ':') // "t:k:" is in the list below already
+	victims := [][]byte{append([]byte("t:k"), b), []byte("t:j"), []byte("t:l"), []byte("tt:k"), []byte("t:k:")}
+	c12Put(db, typ, key, []byte("m"), ts)
+	for _, vk := range victims {
+		c12Put(db, typ, vk, []byte("m"), ts)
+		c12Put(db, typ, vk, []byte("n"), ts)
+	}
+	if vsym.Choose("large", 2) == 1 {
+		// raise the stored size above RangeDeleteNum with the real size helpers
+		wb := db.rockEng.NewWriteBatch()
+		switch typ {
+		case 0:
+			ki, err := db.prepareHashKeyForWrite(ts, key, nil)
+			vsym.Assert(err == nil, "header")
+			_, err = db.hIncrSize(key, ki.OldHeader, RangeDeleteNum+1, wb)
+			vsym.Assert(err == nil, "hIncrSize")
+		case 1:
+			ki, err := db.prepareCollKeyForWrite(ts, SetType, key, nil)
+			vsym.Assert(err == nil, "header")
+			_, err = db.sIncrSize(ts, key, ki.OldHeader, RangeDeleteNum+1, wb)
+			vsym.Assert(err == nil, "sIncrSize")
+		case 2:
+			ki, err := db.prepareCollKeyForWrite(ts, ZSetType, key, nil)
+			vsym.Assert(err == nil, "header")
+			_, err = db.zIncrSize(ts, key, ki.OldHeader, RangeDeleteNum+1, wb)
+			vsym.Assert(err == nil, "zIncrSize")
+		default:
+			ki, head, tail, _, _, err := db.lHeaderAndMeta(ts, key, false)
+			vsym.Assert(err == nil, "list meta")
+			_, err = db.lSetMeta(key, ki.OldHeader, head, tail+RangeDeleteNum+1, ts, wb)
+			vsym.Assert(err == nil, "lSetMeta")
+		}
+		vsym.Assert(db.rockEng.Write(wb) == nil, "commit raised size")
+	}
+	var err error
+	switch typ {
+	case 0:
+		_, err = db.HClear(ts+1, key)
+	case 1:
+		_, err = db.SClear(ts+1, key)
+	case 2:
+		_, err = db.ZClear(ts+1, key)
+	default:
+		_, err = db.LClear(ts+1, key)
+	}
+	vsym.Assert(err == nil, "clear succeeds")
+	vsym.Assert(c12Count(db, typ, key) == 0, "the addressed collection is empty after its clear")
+	for _, vk := range victims {
+		vsym.Assert(c12Count(db, typ, vk) == 2, "a clear leaves every other collection complete (prefix keys, neighbours, other tables)")
+	}
 	vsym.Reach("end")
 }
